@@ -16,7 +16,11 @@ from concurrent.futures import ThreadPoolExecutor
 
 HOME = os.environ.get("VERIF_HOME", os.path.dirname(os.path.dirname(os.path.abspath(__file__))))
 REPO = os.environ.get("VERIF_REPO", "/repo")
-WORK = os.path.join(HOME, "_work")  # no dot: output handlers split file names at "."
+# scratch directory: the repository's output handlers split file names at "." and reject paths with more than one dot, so
+# the scratch path must not contain any; a checkout under a dotted directory falls back to a per-checkout directory in /tmp
+# (scratch only: nothing a later command needs is kept there)
+WORK = os.path.join(HOME, "_work") if "." not in HOME else \
+    os.path.join("/tmp", "verif-work-" + hashlib.sha1(HOME.encode()).hexdigest()[:10])
 PY = "/venv/bin/python"
 NPROC = int(os.environ.get("VERIF_NPROC", str(os.cpu_count() or 4)))
 
